@@ -128,7 +128,7 @@ def gen_case(rnd, idx):
     if surf is not None and max(surf) < 0. and rnd.random() < 0.93:
         surf[rnd.randrange(ncol)] = 0.
     top = 'full' if surf is None or max(surf) >= 0. else ('partial' if max(surf) > ztop[1] else 'missing')
-    bcs = ['none', 'none', 'none', 'bottom-huge', 'side-max-huge', 'side-max-zero', 'side-min-huge']
+    bcs = ['none'] * 5 + ['bottom-huge', 'bottom-huge', 'side-max-huge', 'side-max-zero', 'side-min-huge']
     if atm == 2: bcs += ['top-huge', 'top-zero', 'top1-huge']
     bc = rnd.choice(bcs)
     # some column consists of the bottom layer only (its surface is the top of the bottom layer)
